@@ -42,31 +42,41 @@ BUDGET = {'quick': 240, 'thorough': 600}
 # iterates a set or sorts by hash (fakezk: dicts only).
 HASH_INSENSITIVE = True
 
+ALL = ('xdel', 'expired', 'loss', 'loss-applied')
+EXPIRY = ('expired',)     # both kinds of session expiry only
+XDEL = ('xdel',)          # restart-expiry and the external deletion only
+
 PLAN = {
-    # ('stateless', config, max deviations, max preemption bound, weight)
-    # ('states',    config, max deviations, weight)
-    # a part may use weight / (sum of the weights still to run) of the time
-    # that is left, so time a part does not need goes to the later ones
+    # ('stateless', config, max deviations, max preemption bound, env, weight)
+    # ('states',    config, max deviations, env, weight)
+    # env: the optional environment moves besides the process-killing expiry
+    # (external deletion, faults on a call in flight).  A part may use
+    # weight / (sum of the weights still to run) of the time that is left, so
+    # time a part does not need goes to the later ones.
     'quick': {
-        'parts': [('stateless', 'P6', 0, 2, 1),
-                  ('stateless', 'P1', 1, 2, 4),
-                  ('states', 'P1', 1, 3),
-                  ('states', 'P6', 0, 5),
-                  ('states', 'P2', 1, 8)],
+        'parts': [('stateless', 'P6', 0, 2, ALL, 1),
+                  ('stateless', 'P1', 0, 3, ALL, 1),
+                  ('stateless', 'P1', 1, 1, ALL, 1),
+                  ('states', 'P1', 1, ALL, 3),
+                  ('states', 'P6', 0, ALL, 5),
+                  ('states', 'P2', 1, ALL, 8)],
         'ep_len': 4,
     },
     'thorough': {
-        'parts': [('stateless', 'P6', 0, 3, 1),
-                  ('stateless', 'P6', 1, 1, 2),
-                  ('stateless', 'P4', 1, 0, 2),
-                  ('stateless', 'P2', 1, 2, 4),
-                  ('stateless', 'P1', 1, 3, 14),
-                  ('states', 'P5', 2, 1),
-                  ('states', 'P1', 2, 6),
-                  ('states', 'P6', 0, 4),
-                  ('states', 'P3', 2, 18),
-                  ('states', 'P4', 0, 16),
-                  ('states', 'P2', 2, 50)],
+        'parts': [('stateless', 'P6', 0, 3, ALL, 1),
+                  ('stateless', 'P6', 1, 1, ALL, 2),
+                  ('stateless', 'P4', 1, 0, ALL, 2),
+                  ('stateless', 'P2', 1, 2, ALL, 4),
+                  ('stateless', 'P1', 0, 5, ALL, 4),
+                  ('stateless', 'P1', 1, 2, ALL, 3),
+                  ('states', 'P5', 2, ALL, 1),
+                  ('states', 'P1', 2, ALL, 16),
+                  ('states', 'P6', 0, ALL, 4),
+                  ('states', 'P2', 1, ALL, 5),
+                  ('states', 'P3', 1, ALL, 8),
+                  ('states', 'P4', 0, ALL, 26),
+                  ('states', 'P2', 2, EXPIRY, 36),
+                  ('states', 'P3', 2, XDEL, 26)],
         'ep_len': 5,
     },
 }
@@ -92,6 +102,17 @@ ASSUMPTIONS = [
     'successive containers of one instance on one host: the container with '
     'the higher generation is the newer one and supersedes the older one in '
     'the reference table from the moment its create request is issued',
+    'a fault may land ON a ZooKeeper call in flight (counted deviation, same '
+    'bound as expiry / external deletion): (a) the session expires - the '
+    'call raises SessionExpiredError, the ephemerals vanish, and the SAME '
+    'process and service memory carry on under a new session id with their '
+    'DataWatch recipes re-armed (a kazoo client without the exit_on_lost '
+    'listener that `treadmill sproc service presence` installs; with the '
+    'listener the process dies, which is the other expiry deviation); (b) '
+    'ConnectionLoss with the call not applied; (c) ConnectionLoss after a '
+    'create/set/delete was applied.  The exception takes the real path: '
+    'BaseResourceService._on_created/_on_deleted catch it and reply _error. '
+    'kazoo.retry.KazooRetry keeps its policy but does not sleep',
     'one external deletion per execution (an administrator, own session); a '
     'node deleted externally is not expected back until its owner creates it '
     'again; a set/delete that hits another session\'s node because the node '
@@ -162,9 +183,9 @@ def run(ctx):
     finals = set()
     exhaustive = True
 
-    def note(cfgname, max_dev, res):
+    def note(cfgname, max_dev, res, env):
         for key, rec in res['violations'].items():
-            out = _viol_out(cfgname, max_dev, key, rec)
+            out = _viol_out(cfgname, max_dev, key, rec, list(env))
             cur = violations.get(key)
             if cur is None:
                 violations[key] = out
@@ -223,9 +244,9 @@ def run(ctx):
     # preemptions
     for i, part in enumerate(parts):
         if part[0] == 'stateless':
-            _kind, cfgname, max_dev, max_bound, _w = part
+            _kind, cfgname, max_dev, max_bound, env, _w = part
             res = ilv.explore(cfgname, max_dev, max_bound, ctx.workers,
-                              cap_for(i), ctx.log)
+                              cap_for(i), ctx.log, xdel=env)
             if res['caps_hit']:
                 exhaustive = False
             cov['configs']['%s stateless dev<=%d' % (cfgname, max_dev)] = {
@@ -242,9 +263,9 @@ def run(ctx):
                 'longest_schedule': res['max_len'],
                 'counters': res['counters'], 'wall_s': res['wall_s']}
         else:
-            _kind, cfgname, max_dev, _w = part
+            _kind, cfgname, max_dev, env, _w = part
             res = ilv.explore_states(cfgname, max_dev, ctx.workers,
-                                     cap_for(i), ctx.log)
+                                     cap_for(i), ctx.log, xdel=env)
             tot['states'] += res['states']
             if not res['exhaustive']:
                 exhaustive = False
@@ -261,7 +282,10 @@ def run(ctx):
                 'longest_schedule': res['max_len'],
                 'states_expanded_twice': res['expanded_twice'],
                 'counters': res['counters'], 'wall_s': res['wall_s']}
-        note(cfgname, max_dev, res)
+        cov['configs']['%s %s dev<=%d' % (
+            cfgname, 'stateless' if part[0] == 'stateless' else 'state search',
+            max_dev)]['environment_moves'] = ['expire+restart'] + list(env)
+        note(cfgname, max_dev, res, env)
         tot['runs'] += res['runs']
         tot['steps'] += res['steps']
         tot['contended'] += res['contended']
